@@ -236,3 +236,88 @@ func valueOwnedBy(writes []*tokWrite, cols []tokCol, owner func(*tokWrite) int, 
 	}
 	return false
 }
+
+// pxCases: the same worlds through the REAL proxies end to end (both front ends): every session writes into every
+// tokenized column with an INSERT, every stored token is selected by every session through its own column and
+// another one. Reads are compared with the model, which is told what each write stored (the proxies draw their
+// tokens from the real random generator).
+func pxCases(r *core.Run) {
+	rd := r.Rand
+	for w := 0; w < r.N(10, 150); w++ {
+		dialect := []string{"pg", "my"}[w%2]
+		ty := []int{3, 4, 1, 5, 2}[(w/2)%5]
+		consistent := (w/10)%2 == 0
+		ids := [][]byte{clientID(rd, 5+rd.Intn(10)), clientID(rd, 5+rd.Intn(10)), clientID(rd, 5+rd.Intn(20))}
+		cols := []tokCol{
+			{name: "c_none", ty: ty, consistent: consistent},
+			{name: "c_a", cid: ids[0], ty: ty, consistent: consistent},
+			{name: "c_b", cid: ids[1], ty: ty, consistent: consistent},
+		}
+		colToks := fmt.Sprint(len(cols))
+		for _, c := range cols {
+			colToks += " " + c.tokens()
+		}
+		h := fmt.Sprintf("px%d", w)
+		r.Begin(fmt.Sprintf("px-%s-%s-%v-%x", dialect, tokTypeNames[ty], consistent, ids[0]), true, "entry:proxy-token-column", "dialect:"+dialect, "type:"+tokTypeNames[ty])
+		if out := r.Impl(fmt.Sprintf("C02.px.new %s %s %s %s", h, dialect, core.Hex(rd.Bytes(4096)), colToks)); !r.Check(out == "ok", "px-start", "the proxy world did not start: "+out) {
+			continue
+		}
+		type pw struct {
+			session, col int
+			v, stored    []byte
+			row          string
+		}
+		var writes []*pw
+		var hist []string
+		owner := func(x *pw) int {
+			if x.col == 0 {
+				return x.session
+			}
+			return x.col - 1
+		}
+		for _, p := range rd2perm(rd, 9) {
+			x := &pw{session: p / 3, col: p % 3, v: tokValue(rd, ty)}
+			if len(writes) > 0 && rd.Chance(15) {
+				x.v = writes[rd.Intn(len(writes))].v // the same value again
+			}
+			f := strings.Fields(r.Impl(fmt.Sprintf("C02.px.write %s %s %s %s", h, core.Hex(ids[x.session]), cols[x.col].name, core.Hex(x.v))))
+			if !r.Check(len(f) == 3 && f[0] == "ok", "px-write", fmt.Sprintf("%s: INSERT into a tokenized %s column through the proxy failed", dialect, tokTypeNames[ty])) {
+				continue
+			}
+			x.stored, x.row = core.UnHex(f[1]), f[2]
+			r.Check(!bytes.Equal(x.stored, x.v), "plaintext-stored", fmt.Sprintf("%s: a value written into tokenized column %s reached the database in clear", dialect, cols[x.col].name))
+			writes = append(writes, x)
+			hist = append(hist, fmt.Sprintf("%s %s %s %s", core.Hex(ids[x.session]), cols[x.col].name, core.Hex(x.v), core.Hex(x.stored)))
+		}
+		for _, x := range writes {
+			for b := 0; b < 3; b++ {
+				for _, ci := range []int{x.col, rd.Intn(3)} {
+					out := r.Do(fmt.Sprintf("C02.px.read %s %s %s %s %s %s %s %d %s", h, dialect, core.Hex(ids[b]), cols[ci].name, x.row, core.Hex(x.stored), colToks, len(hist), strings.Join(hist, " ")))
+					what := fmt.Sprintf("%s proxy, %s: session of client #%d selecting column %s holding the token of a value written by a session of #%d into column %s (owner #%d)",
+						dialect, tokTypeNames[ty], b, cols[ci].name, x.session, cols[x.col].name, owner(x))
+					if !r.Check(out != core.Err && out != core.Panic, "px-read", what+": "+out) {
+						continue
+					}
+					val := core.UnHex(out)
+					if owner(x) == b {
+						if ci == x.col {
+							r.Check(bytes.Equal(val, x.v), "owner-detokenize", what+": the owner does not get its value back")
+						}
+						continue
+					}
+					ownsSame := false
+					for _, y := range writes {
+						if owner(y) == b && (bytes.Equal(y.stored, x.stored) || bytes.Equal(y.v, x.v)) {
+							ownsSame = true
+						}
+					}
+					if !ownsSame {
+						r.Check(!bytes.Equal(val, x.v), "cross-client-column-detokenize", what+": received the PLAINTEXT")
+						r.Check(bytes.Equal(val, x.stored), "cross-client-column-detokenize", what+": did not get the stored token back unchanged: "+trunc(out))
+					}
+				}
+			}
+		}
+		r.Impl("C02.px.close " + h)
+	}
+}
